@@ -12,6 +12,7 @@ import EvyV.Driver.LexDrv
 import EvyV.Driver.LayoutDrv
 import EvyV.Driver.PrattDrv
 import EvyV.Driver.BlocksDrv
+import EvyV.Driver.ScopeDrv
 import EvyV.Driver.StmtDrv
 import EvyV.Gen.Shapes
 /-
@@ -72,6 +73,7 @@ def handle (line : String) : String :=
   | "prattw" :: rest => PrattDrv.handleW rest
   | "layoutw" :: rest => PrattDrv.handleLayout rest
   | "blocks" :: rest => BlocksDrv.handle rest
+  | "scope" :: rest => ScopeDrv.handle rest
   | ["fmtk"] => LayoutDrv.handleK ""
   | ["fmtk", w] => LayoutDrv.handleK w
   | ["fmtm"] => LayoutDrv.handleM ""
